@@ -18,6 +18,7 @@ import (
 	"github.com/KevoDB/kevo/pkg/memtable"
 	"github.com/KevoDB/kevo/pkg/sstable"
 	"github.com/KevoDB/kevo/pkg/stats"
+	"github.com/KevoDB/kevo/pkg/verifhook"
 	"github.com/KevoDB/kevo/pkg/wal"
 )
 
@@ -168,10 +169,12 @@ func (m *Manager) Put(key, value []byte) error {
 			return err // Return ErrWALRotating for retry handling
 		}
 
+		verifhook.Point("storage.put.after_wal")
 		// Add to MemTable
 		m.memTablePool.Put(key, value, seqNum)
 		m.lastSeqNum = seqNum
 
+		verifhook.Point("storage.write.after_memtable")
 		// Update memtable size estimate
 		m.stats.TrackMemTableSize(uint64(m.memTablePool.TotalSize()))
 
@@ -265,10 +268,12 @@ func (m *Manager) Delete(key []byte) error {
 			return err // Return ErrWALRotating for retry handling
 		}
 
+		verifhook.Point("storage.delete.after_wal")
 		// Add deletion marker to MemTable
 		m.memTablePool.Delete(key, seqNum)
 		m.lastSeqNum = seqNum
 
+		verifhook.Point("storage.write.after_memtable")
 		// Update memtable size estimate
 		m.stats.TrackMemTableSize(uint64(m.memTablePool.TotalSize()))
 
@@ -383,6 +388,7 @@ func (m *Manager) ApplyBatch(entries []*wal.Entry) error {
 			return err // Return ErrWALRotating for retry handling
 		}
 
+		verifhook.Point("storage.batch.after_wal")
 		// Apply each entry to the MemTable
 		for i, entry := range entries {
 			seqNum := startSeqNum + uint64(i)
@@ -395,8 +401,10 @@ func (m *Manager) ApplyBatch(entries []*wal.Entry) error {
 			}
 
 			m.lastSeqNum = seqNum
+			verifhook.Point("storage.batch.between_inserts")
 		}
 
+		verifhook.Point("storage.batch.after_memtable")
 		// Update memtable size
 		m.stats.TrackMemTableSize(uint64(m.memTablePool.TotalSize()))
 
@@ -423,6 +431,7 @@ func (m *Manager) FlushMemTables() error {
 	// Track operation
 	m.stats.TrackOperation(stats.OpFlush)
 
+	verifhook.Point("storage.flush.begin")
 	// If no immutable MemTables, flush the active one if needed
 	if len(m.immutableMTs) == 0 {
 		tables := m.memTablePool.GetMemTables()
@@ -451,6 +460,7 @@ func (m *Manager) FlushMemTables() error {
 		return fmt.Errorf("failed to rotate WAL: %w", err)
 	}
 
+	verifhook.Point("storage.flush.after_rotate")
 	// Flush each immutable MemTable
 	for i, imMem := range m.immutableMTs {
 		if err := m.flushMemTable(imMem); err != nil {
@@ -459,6 +469,7 @@ func (m *Manager) FlushMemTables() error {
 		}
 	}
 
+	verifhook.Point("storage.flush.after_tables")
 	// Clear the immutable list - the MemTablePool manages reuse
 	m.immutableMTs = m.immutableMTs[:0]
 
@@ -555,18 +566,21 @@ func (m *Manager) rotateWAL() error {
 		currentWAL.SetRotating()
 	}
 
+	verifhook.Point("storage.rotate.after_setrotating")
 	// Create a new WAL first before closing the old one
 	newWAL, err := wal.NewWAL(m.cfg, m.walDir)
 	if err != nil {
 		return fmt.Errorf("failed to create new WAL: %w", err)
 	}
 
+	verifhook.Point("storage.rotate.after_newwal")
 	// Store the old WAL for proper closure
 	oldWAL := m.wal
 
 	// Atomically update the WAL reference using atomic pointer operations
 	atomic.StorePointer((*unsafe.Pointer)(unsafe.Pointer(&m.wal)), unsafe.Pointer(newWAL))
 
+	verifhook.Point("storage.rotate.after_swap")
 	// Now close the old WAL after the new one is in place
 	if oldWAL != nil {
 		if err := oldWAL.Close(); err != nil {
@@ -577,6 +591,7 @@ func (m *Manager) rotateWAL() error {
 		}
 	}
 
+	verifhook.Point("storage.rotate.after_close")
 	return nil
 }
 
@@ -620,6 +635,7 @@ func (m *Manager) Close() error {
 		}
 	}
 
+	verifhook.Point("storage.close.after_wal")
 	// Close SSTables
 	for _, table := range m.sstables {
 		if err := table.Close(); err != nil {
@@ -635,6 +651,7 @@ func (m *Manager) scheduleFlush() error {
 	// Get the MemTable that needs to be flushed
 	immutable := m.memTablePool.SwitchToNewMemTable()
 
+	verifhook.Point("storage.schedflush.after_switch")
 	// Add to our list of immutable tables to track
 	m.immutableMTs = append(m.immutableMTs, immutable)
 
@@ -668,6 +685,7 @@ func (m *Manager) flushMemTable(mem *memtable.MemTable) error {
 	filename := fmt.Sprintf(sstableFilenameFormat, 0, fileNum, timestamp)
 	sstPath := filepath.Join(m.sstableDir, filename)
 
+	verifhook.Point("storage.flushtable.before_writer")
 	// Create a new SSTable writer
 	writer, err := sstable.NewWriter(sstPath)
 	if err != nil {
@@ -759,11 +777,13 @@ func (m *Manager) flushMemTable(mem *memtable.MemTable) error {
 		return nil
 	}
 
+	verifhook.Point("storage.flushtable.after_add")
 	// Finish writing the SSTable
 	if err := writer.Finish(); err != nil {
 		return fmt.Errorf("failed to finish SSTable: %w", err)
 	}
 
+	verifhook.Point("storage.flushtable.after_finish")
 	// Track bytes written to SSTable
 	m.stats.TrackBytes(true, bytesWritten)
 
@@ -778,6 +798,7 @@ func (m *Manager) flushMemTable(mem *memtable.MemTable) error {
 		return fmt.Errorf("failed to open SSTable: %w", err)
 	}
 
+	verifhook.Point("storage.flushtable.before_publish")
 	// Add the SSTable to the list
 	m.mu.Lock()
 	m.sstables = append(m.sstables, reader)
